@@ -65,13 +65,21 @@ pub fn check_c03(case: &Case, class: &str, ctx: &mut Ctx) {
         }
         Faith::GenPanic(m) => {
             ctx.exec(1);
-            ctx.note(format!("raw generation panic {} (C10)", truncate(&m, 50)), 1);
+            ctx.note(
+                format!("raw generation panic {} (C10)", truncate(&m, 50)),
+                1,
+            );
         }
         Faith::Unparsable(e) => {
             ctx.exec(1);
             ctx.violation("C03/raw/unparsable", e, replay(), size);
         }
-        Faith::Checked { bad, executions, tokens, .. } => {
+        Faith::Checked {
+            bad,
+            executions,
+            tokens,
+            ..
+        } => {
             ctx.exec(executions);
             ctx.outcome(&("raw:ok", crate::settings::squash(&tokens), bad.len()));
             for (_, sig, detail) in bad {
@@ -98,11 +106,17 @@ pub fn check_c03(case: &Case, class: &str, ctx: &mut Ctx) {
         let mut by_path: BTreeMap<Vec<String>, Vec<u32>> = BTreeMap::new();
         for t in &after.types {
             if t.ty.path.segments.len() >= 2 {
-                by_path.entry(t.ty.path.segments.clone()).or_default().push(t.id);
+                by_path
+                    .entry(t.ty.path.segments.clone())
+                    .or_default()
+                    .push(t.id);
             }
         }
         for (p, ids) in by_path {
-            let names: std::collections::BTreeSet<&Vec<String>> = ids.iter().map(|i| &want.types[*i as usize].ty.path.segments).collect();
+            let names: std::collections::BTreeSet<&Vec<String>> = ids
+                .iter()
+                .map(|i| &want.types[*i as usize].ty.path.segments)
+                .collect();
             if names.len() > 1 {
                 ctx.violation(
                     format!("C03/dedup-leaves-different-shapes/{class}"),
@@ -121,17 +135,34 @@ pub fn check_c03(case: &Case, class: &str, ctx: &mut Ctx) {
     match faithfulness(&after, sp, None) {
         Faith::GenErr(e) => {
             ctx.exec(1);
-            ctx.note(format!("generation after de-duplication fails with {} (reported by C04)", e.name()), 1);
+            ctx.note(
+                format!(
+                    "generation after de-duplication fails with {} (reported by C04)",
+                    e.name()
+                ),
+                1,
+            );
         }
         Faith::GenPanic(m) => {
             ctx.exec(1);
-            ctx.note(format!("generation after de-duplication panics {} (C10)", truncate(&m, 50)), 1);
+            ctx.note(
+                format!(
+                    "generation after de-duplication panics {} (C10)",
+                    truncate(&m, 50)
+                ),
+                1,
+            );
         }
         Faith::Unparsable(e) => {
             ctx.exec(1);
             ctx.violation("C03/dedup/unparsable", e, replay(), size);
         }
-        Faith::Checked { bad, executions, tokens, .. } => {
+        Faith::Checked {
+            bad,
+            executions,
+            tokens,
+            ..
+        } => {
             ctx.exec(executions);
             ctx.outcome(&("dedup:ok", crate::settings::squash(&tokens), bad.len()));
             for (_, sig, detail) in bad {
@@ -204,7 +235,10 @@ pub fn expected_dedup(prog: &Program, el: &Elaborated) -> PortableRegistry {
             let mut assumed = HashSet::new();
             let rep_assoc = assoc_of(ids[0]);
             let assoc_same = rep_assoc.len() == my_assoc.len()
-                && rep_assoc.iter().zip(my_assoc.iter()).all(|(x, y)| tys_equiv(prog, x, y, &mut HashSet::new()));
+                && rep_assoc
+                    .iter()
+                    .zip(my_assoc.iter())
+                    .all(|(x, y)| tys_equiv(prog, x, y, &mut HashSet::new()));
             if assoc_same && defs_equiv(prog, *rep, d, &mut assumed) {
                 ids.push(t.id);
                 placed = true;
@@ -231,7 +265,10 @@ pub fn expected_dedup(prog: &Program, el: &Elaborated) -> PortableRegistry {
 }
 
 fn paths_of(r: &PortableRegistry) -> Vec<String> {
-    r.types.iter().map(|t| t.ty.path.segments.join("::")).collect()
+    r.types
+        .iter()
+        .map(|t| t.ty.path.segments.join("::"))
+        .collect()
 }
 
 pub fn check_c04(case: &Case, class: &str, ctx: &mut Ctx) {
@@ -255,7 +292,12 @@ pub fn check_c04(case: &Case, class: &str, ctx: &mut Ctx) {
     // (a) frame, weak form - holds for any input: only last path segments may change, and only
     // for user types whose path was shared in `before`
     if before.types.len() != after.types.len() {
-        ctx.violation("C04/frame/entry-count", "number of entries changed".to_string(), replay(), size);
+        ctx.violation(
+            "C04/frame/entry-count",
+            "number of entries changed".to_string(),
+            replay(),
+            size,
+        );
         return;
     }
     let mut shared: BTreeMap<Vec<String>, usize> = BTreeMap::new();
@@ -273,13 +315,27 @@ pub fn check_c04(case: &Case, class: &str, ctx: &mut Ctx) {
             if b2 != *a {
                 ctx.violation(
                     "C04/frame/more-than-last-segment",
-                    format!("entry {} changed in more than its last path segment: {:?} -> {:?}", b.id, b.ty.path.segments, a.ty.path.segments),
+                    format!(
+                        "entry {} changed in more than its last path segment: {:?} -> {:?}",
+                        b.id, b.ty.path.segments, a.ty.path.segments
+                    ),
                     replay(),
                     size,
                 );
             } else {
                 // new name is old name + k, k >= 1
-                let ok = y.strip_prefix(old.as_str()).map(|k| k.parse::<u32>().map(|k| k >= 1 && !k.to_string().is_empty() && !y[old.len()..].starts_with('0')).unwrap_or(false)).unwrap_or(false);
+                let ok = y
+                    .strip_prefix(old.as_str())
+                    .map(|k| {
+                        k.parse::<u32>()
+                            .map(|k| {
+                                k >= 1
+                                    && !k.to_string().is_empty()
+                                    && !y[old.len()..].starts_with('0')
+                            })
+                            .unwrap_or(false)
+                    })
+                    .unwrap_or(false);
                 if !ok {
                     ctx.violation(
                         "C04/numbering/not-old-plus-k",
@@ -298,7 +354,12 @@ pub fn check_c04(case: &Case, class: &str, ctx: &mut Ctx) {
                 }
             }
         } else {
-            ctx.violation("C04/frame/pathless-changed", format!("entry {} without a path changed", b.id), replay(), size);
+            ctx.violation(
+                "C04/frame/pathless-changed",
+                format!("entry {} without a path changed", b.id),
+                replay(),
+                size,
+            );
         }
     }
     // (a), (c), (e) exact form against the source-level reference
@@ -318,8 +379,16 @@ pub fn check_c04(case: &Case, class: &str, ctx: &mut Ctx) {
                 .collect();
             // which clause?
             let before_paths = paths_of(&before);
-            let renamed_unneeded = pa.iter().zip(pw.iter()).zip(before_paths.iter()).any(|((x, y), b)| x != b && y == b);
-            let not_renamed = pa.iter().zip(pw.iter()).zip(before_paths.iter()).any(|((x, y), b)| x == b && y != b);
+            let renamed_unneeded = pa
+                .iter()
+                .zip(pw.iter())
+                .zip(before_paths.iter())
+                .any(|((x, y), b)| x != b && y == b);
+            let not_renamed = pa
+                .iter()
+                .zip(pw.iter())
+                .zip(before_paths.iter())
+                .any(|((x, y), b)| x == b && y != b);
             let clause = if renamed_unneeded {
                 "split-one-definition"
             } else if not_renamed {
@@ -341,15 +410,17 @@ pub fn check_c04(case: &Case, class: &str, ctx: &mut Ctx) {
     let collision = || {
         // a renamed entry now carries a name that another entry already had before
         let before_paths: HashSet<String> = paths_of(&before).into_iter().collect();
-        before
-            .types
-            .iter()
-            .zip(after.types.iter())
-            .any(|(b, a)| b.ty.path != a.ty.path && before_paths.contains(&a.ty.path.segments.join("::")))
+        before.types.iter().zip(after.types.iter()).any(|(b, a)| {
+            b.ty.path != a.ty.path && before_paths.contains(&a.ty.path.segments.join("::"))
+        })
     };
     match generate(&after, &sp.build()) {
         GenOutcome::Err(ErrKind::DuplicateTypePath(p)) => {
-            let sub = if collision() { "suffix-collision-with-existing-name" } else { class };
+            let sub = if collision() {
+                "suffix-collision-with-existing-name"
+            } else {
+                class
+            };
             ctx.violation(
                 format!("C04/insufficient/{sub}"),
                 format!("generation on the de-duplicated registry still fails with DuplicateTypePath({p})"),
@@ -358,18 +429,41 @@ pub fn check_c04(case: &Case, class: &str, ctx: &mut Ctx) {
             );
         }
         GenOutcome::Ok { .. } => {}
-        GenOutcome::Err(e) => ctx.note(format!("generation after de-duplication: {} (C10)", e.name()), 1),
-        GenOutcome::Panic(m) => ctx.note(format!("generation after de-duplication panics: {} (C10)", truncate(&m, 40)), 1),
+        GenOutcome::Err(e) => ctx.note(
+            format!("generation after de-duplication: {} (C10)", e.name()),
+            1,
+        ),
+        GenOutcome::Panic(m) => ctx.note(
+            format!(
+                "generation after de-duplication panics: {} (C10)",
+                truncate(&m, 40)
+            ),
+            1,
+        ),
     }
     // (d) idempotent
     ctx.exec(1);
     match dedup(&after) {
         Ok(again) => {
             if again != after {
-                let sub = if collision() { "suffix-collision-with-existing-name" } else { class };
+                let sub = if collision() {
+                    "suffix-collision-with-existing-name"
+                } else {
+                    class
+                };
                 ctx.violation(
                     format!("C04/not-idempotent/{sub}"),
-                    format!("a second run renames again: {:?} -> {:?}", paths_of(&after).iter().filter(|p| p.contains("::")).collect::<Vec<_>>(), paths_of(&again).iter().filter(|p| p.contains("::")).collect::<Vec<_>>()),
+                    format!(
+                        "a second run renames again: {:?} -> {:?}",
+                        paths_of(&after)
+                            .iter()
+                            .filter(|p| p.contains("::"))
+                            .collect::<Vec<_>>(),
+                        paths_of(&again)
+                            .iter()
+                            .filter(|p| p.contains("::"))
+                            .collect::<Vec<_>>()
+                    ),
                     replay(),
                     size,
                 );
@@ -381,12 +475,7 @@ pub fn check_c04(case: &Case, class: &str, ctx: &mut Ctx) {
 
 // ---------------------------------------------------------------------------
 
-fn explore_both(
-    report: &mut Report,
-    thorough: bool,
-    seed: u64,
-    which: &'static str,
-) {
+fn explore_both(report: &mut Report, thorough: bool, seed: u64, which: &'static str) {
     let sp = spec();
     let check = |case: &Case, class: &str, ctx: &mut Ctx| {
         if which == "C03" {
@@ -402,7 +491,11 @@ fn explore_both(
             max_members: if thorough { 3 } else { 2 },
             max_fields: 2,
             alphabet: FAM_ALPHABET.to_vec(),
-            forms: if thorough { ALL_MEMBER_FORMS.to_vec() } else { vec![MemberForm::NamedStruct] },
+            forms: if thorough {
+                ALL_MEMBER_FORMS.to_vec()
+            } else {
+                vec![MemberForm::NamedStruct]
+            },
             leads: if thorough { vec![0, 1, 2] } else { vec![0, 1] },
             with_neighbours: which == "C04",
         },
@@ -459,18 +552,29 @@ fn explore_both(
                     // defs: 0 InnerA, 1 MidA, 2 OuterA, 3 InnerB, 4 MidB, 5 OuterB, 6 Host
                     let mk = |x: &Ty, base: usize| -> Vec<Def> {
                         vec![
-                            Def::strukt(&["n", "c"], "Inner", &["V"], named(vec![("v", Ty::Param(0)), ("x", x.clone())])),
+                            Def::strukt(
+                                &["n", "c"],
+                                "Inner",
+                                &["V"],
+                                named(vec![("v", Ty::Param(0)), ("x", x.clone())]),
+                            ),
                             Def::strukt(
                                 &["n", "c"],
                                 "Mid",
                                 &["U"],
-                                named(vec![("u", Ty::Param(0)), ("i", Ty::Named(base, vec![inner_arg.clone()]))]),
+                                named(vec![
+                                    ("u", Ty::Param(0)),
+                                    ("i", Ty::Named(base, vec![inner_arg.clone()])),
+                                ]),
                             ),
                             Def::strukt(
                                 &["n", "c"],
                                 "Outer",
                                 &["T"],
-                                named(vec![("t", Ty::Param(0)), ("m", Ty::Named(base + 1, vec![mid_arg.clone()]))]),
+                                named(vec![
+                                    ("t", Ty::Param(0)),
+                                    ("m", Ty::Named(base + 1, vec![mid_arg.clone()])),
+                                ]),
                             ),
                         ]
                     };
@@ -516,11 +620,20 @@ fn explore_both(
         max_fields: 2,
         max_insts: if thorough { 3 } else { 2 },
         include_cf3: true,
-        body_forms: if thorough { ALL_BODY_FORMS.to_vec() } else { vec![BodyForm::Named] },
+        body_forms: if thorough {
+            ALL_BODY_FORMS.to_vec()
+        } else {
+            vec![BodyForm::Named]
+        },
         param_forms: if thorough {
             ALL_PARAM_FORMS.to_vec()
         } else {
-            vec![ParamForm::One, ParamForm::ConfigSkipped, ParamForm::ConfigKept, ParamForm::BitsSO]
+            vec![
+                ParamForm::One,
+                ParamForm::ConfigSkipped,
+                ParamForm::ConfigKept,
+                ParamForm::BitsSO,
+            ]
         },
     };
     let budget = Budget {
@@ -542,7 +655,11 @@ fn explore_both(
             Some(w) => format!("coincident-generic({})", &w[..3]),
             None => "generic-family".to_string(),
         };
-        let case = Case::new(RegSrc::Prog(prog), sp.clone(), "D-generic (no coincidence filter)");
+        let case = Case::new(
+            RegSrc::Prog(prog),
+            sp.clone(),
+            "D-generic (no coincidence filter)",
+        );
         check(&case, &class, ctx);
     }));
     // three instantiations of a two-parameter definition with one field: whether two same-path entries count
@@ -560,26 +677,47 @@ fn explore_both(
         wall: Duration::from_secs(if thorough { 600 } else { 150 }),
         max_states: 60_000_000,
     };
-    let mut st3 = explore(&d3, &budget, seed, |s, ctx| {
-        if !wf5_ok(s) {
-            ctx.exclude("WF5: parameter under compact instantiated with a non-compactable type");
-            return;
-        }
-        let prog = s.program();
-        let class = match s.insts.iter().find_map(|a| coincidence(&prog.defs[G_D], a, &prog).err()) {
-            Some(w) => format!("coincident-generic({})", &w[..3]),
-            None => "generic-family".to_string(),
-        };
-        let case = Case::new(RegSrc::Prog(prog), sp.clone(), "D-generic, three instantiations of <T, U>");
-        check(&case, &class, ctx);
-    });
-    st3.driver = format!("three instantiations: {}", st3.driver);
-    report.add(st3);
+    // (in the quick tier this driver runs for C04, whose "generation no longer fails" clause it is about)
+    if which == "C04" || thorough {
+        let mut st3 = explore(&d3, &budget, seed, |s, ctx| {
+            if !wf5_ok(s) {
+                ctx.exclude(
+                    "WF5: parameter under compact instantiated with a non-compactable type",
+                );
+                return;
+            }
+            let prog = s.program();
+            let class = match s
+                .insts
+                .iter()
+                .find_map(|a| coincidence(&prog.defs[G_D], a, &prog).err())
+            {
+                Some(w) => format!("coincident-generic({})", &w[..3]),
+                None => "generic-family".to_string(),
+            };
+            let case = Case::new(
+                RegSrc::Prog(prog),
+                sp.clone(),
+                "D-generic, three instantiations of <T, U>",
+            );
+            check(&case, &class, ctx);
+        });
+        st3.driver = format!("three instantiations: {}", st3.driver);
+        report.add(st3);
+    }
     // D-chain
-    let mut chain = vec![Case::new(RegSrc::Polkadot { retain: None }, sp.clone(), "D-chain full")];
+    let mut chain = vec![Case::new(
+        RegSrc::Polkadot { retain: None },
+        sp.clone(),
+        "D-chain full",
+    )];
     let n = crate::run::polkadot_registry().types.len() as u32;
     for id in (0..n).step_by(if thorough { 1 } else { 7 }) {
-        chain.push(Case::new(RegSrc::Polkadot { retain: Some(id) }, sp.clone(), format!("D-chain retain({id})")));
+        chain.push(Case::new(
+            RegSrc::Polkadot { retain: Some(id) },
+            sp.clone(),
+            format!("D-chain retain({id})"),
+        ));
     }
     report.add(sweep(
         "D-chain(polkadot full + single-id closures)",
